@@ -34,6 +34,10 @@ func zzCCVerify(c *x509.Certificate, opts x509.VerifyOptions) ([][]*x509.Certifi
 			needClientAuth = true
 		}
 	}
+	// the harness certificates are valid at the configured time (Config.Time) only
+	if opts.CurrentTime.Unix() != 1700000000 {
+		return nil, x509.CertificateInvalidError{Cert: c, Reason: x509.Expired}
+	}
 	trusted := zzCC.signedByTrustedCA && opts.Roots == zzCC.pool
 	if trusted && (zzCC.hasClientAuthEKU || !needClientAuth) {
 		return [][]*x509.Certificate{{c}}, nil
@@ -75,7 +79,7 @@ func zzH_c08_client_cert() {
 		leafKey, _ := sm2.GenerateKey(rand.Reader)
 		mkCA := func(cn string, k *sm2.PrivateKey) (*x509.Certificate, []byte) {
 			t := &x509.Certificate{SerialNumber: big.NewInt(1), Subject: pkix.Name{CommonName: cn},
-				NotBefore: time.Unix(1600000000, 0), NotAfter: time.Unix(1900000000, 0),
+				NotBefore: time.Unix(1600000000, 0), NotAfter: time.Unix(1750000000, 0),
 				IsCA: true, BasicConstraintsValid: true, KeyUsage: x509.KeyUsageCertSign, SignatureAlgorithm: x509.SM2WithSM3}
 			der := zzMkCert(t, t, &k.PublicKey, k)
 			pc, _ := x509.ParseCertificate(der)
@@ -91,7 +95,7 @@ func zzH_c08_client_cert() {
 			usage = x509.ExtKeyUsageClientAuth
 		}
 		lt := &x509.Certificate{SerialNumber: big.NewInt(2), Subject: pkix.Name{CommonName: "client"},
-			NotBefore: time.Unix(1600000000, 0), NotAfter: time.Unix(1900000000, 0),
+			NotBefore: time.Unix(1600000000, 0), NotAfter: time.Unix(1750000000, 0),
 			KeyUsage: x509.KeyUsageDigitalSignature, ExtKeyUsage: []x509.ExtKeyUsage{usage}, SignatureAlgorithm: x509.SM2WithSM3}
 		issuer, issuerKey := ca, caKey
 		if !signed {
